@@ -212,7 +212,7 @@ pub fn run(cfg: &Cfg) -> i32 {
         }
         // long playouts
         let strat = gen::raw_hist_strategy(150, 400);
-        engine::pbt(ctx, seedf(1), cfg.per_shard(3_200, 64_000), &strat, |ctx, raw: &RawHist| {
+        engine::pbt(ctx, seedf(1), cfg.per_shard(20_000, 300_000), &strat, |ctx, raw: &RawHist| {
             let (_, start) = match gen::start_of(raw) {
                 Some(x) => x,
                 None => {
@@ -226,7 +226,7 @@ pub fn run(cfg: &Cfg) -> i32 {
         // complete trees
         let strat2 = gen::raw_hist_strategy(0, 12);
         let depth_hi = cfg.tier.pick(3usize, 4usize);
-        engine::pbt(ctx, seedf(2), cfg.per_shard(400, 4_000), &strat2, |ctx, raw: &RawHist| {
+        engine::pbt(ctx, seedf(2), cfg.per_shard(1_600, 16_000), &strat2, |ctx, raw: &RawHist| {
             let (_, start) = match gen::start_of(raw) {
                 Some(x) => x,
                 None => {
